@@ -139,6 +139,25 @@ pub fn outcome<T>(r: &Result<Result<T, SignError>, String>, style: impl Fn(&T) -
     }
 }
 
+
+thread_local! {
+    static AMBIENT: std::cell::Cell<usize> = const { std::cell::Cell::new(0) };
+}
+
+/// Ambient sharing of the bus: in turn nothing, two more handles on the same bus, and two more `Sign` objects (other
+/// addresses) on it, all idle while the call runs.  How many owners a bus has must not matter to a call.
+pub fn ambient(bus: &Rc<RefCell<ScriptedBus>>, me: Address, typ: SignType) -> (Vec<Rc<RefCell<ScriptedBus>>>, Vec<Sign>) {
+    let k = AMBIENT.with(|c| {
+        c.set(c.get() + 1);
+        c.get()
+    });
+    match k % 3 {
+        0 => (vec![], vec![]),
+        1 => (vec![bus.clone(), bus.clone()], vec![]),
+        _ => (vec![], vec![Sign::new(bus.clone(), Address(me.0 ^ 1), typ), Sign::new(bus.clone(), Address(me.0.wrapping_add(2)), typ)]),
+    }
+}
+
 /// Runs one controller call on `sign`; returns the outcome string.
 thread_local! {
     static CALLS: std::cell::Cell<usize> = const { std::cell::Cell::new(0) };
@@ -210,6 +229,7 @@ pub fn replay_scripts(path: &str) {
         let rs = replies.clone();
         let bus = Rc::new(RefCell::new(ScriptedBus { next: Box::new(move |n, _| rs.get(n).cloned()), log: vec![], exhausted: false }));
         let sign = Sign::new(bus.clone(), Address(me), typ);
+        let _ambient = ambient(&bus, Address(me), typ);
         let out = run_call(&sign, &name, &pages);
         let b = bus.borrow();
         let got: Vec<Value> = b.log.iter().map(|(m, _)| j::msg(m)).collect();
@@ -251,6 +271,7 @@ pub fn record_from_scripts(path: &str, a: &Args, name: &str) -> usize {
         let pages: Vec<Page<'static>> = if call == "send_pages" { v["items"].as_array().unwrap().iter().map(|b| page_of(&j::to_bytes(b))).collect() } else { vec![] };
         let bus = Rc::new(RefCell::new(ScriptedBus { next: Box::new(move |k, _| Some(replies.get(k).cloned().unwrap_or(Reply::BusError))), log: vec![], exhausted: false }));
         let sign = Sign::new(bus.clone(), Address(me), typ);
+        let _ambient = ambient(&bus, Address(me), typ);
         let outc = run_call(&sign, &call, &pages);
         let b = bus.borrow();
         emit_conversation(&mut out, &call, me, typ, &pages, &b.log, &outc);
@@ -365,6 +386,7 @@ pub fn record_adversarial(a: &Args, out: &mut TraceOut, salt: u64, runs: usize) 
             exhausted: false,
         }));
         let sign = Sign::new(bus.clone(), Address(me), typ);
+        let _ambient = ambient(&bus, Address(me), typ);
         let outc = run_call(&sign, name, &pages);
         let b = bus.borrow();
         exchanges += b.log.len();
@@ -407,6 +429,7 @@ pub fn record_transfers(a: &Args, out: &mut TraceOut, heavy: bool) -> Value {
             exhausted: false,
         }));
         let sign = Sign::new(bus.clone(), Address(me), typ);
+        let _ambient = ambient(&bus, Address(me), typ);
         let outc = run_call(&sign, name, &pages);
         let b = bus.borrow();
         exchanges += b.log.len();
@@ -546,6 +569,7 @@ pub fn record_directed_ctl(a: &Args, out: &mut TraceOut, long_polls: bool) -> Va
                 exhausted: false,
             }));
             let sign = Sign::new(bus.clone(), a_, ALL_TYPES[k % 11]);
+            let _ambient = ambient(&bus, a_, ALL_TYPES[k % 11]);
             let outc = run_call(&sign, name, &[]);
             let b = bus.borrow();
             emit_conversation(out, name, me, ALL_TYPES[k % 11], &[], &b.log, &outc);
@@ -588,6 +612,7 @@ pub fn record_directed_ctl(a: &Args, out: &mut TraceOut, long_polls: bool) -> Va
                 }));
                 // the error-kind rotation is shifted per run so that every kind meets every step
                 let sign = Sign::new(bus.clone(), a_, ALL_TYPES[kind % 11]);
+                let _ambient = ambient(&bus, a_, ALL_TYPES[kind % 11]);
                 let outc = run_call_with_kind(&sign, name, &pages, &bus, k2);
                 let b = bus.borrow();
                 emit_conversation(out, name, me, ALL_TYPES[kind % 11], &pages, &b.log, &outc);
@@ -664,6 +689,7 @@ pub fn record_conclusions(a: &Args, out: &mut TraceOut) -> Value {
                 }));
                 let typ = ALL_TYPES[(fi + attempt) % 11];
                 let sign = Sign::new(bus.clone(), a_, typ);
+                let _ambient = ambient(&bus, a_, typ);
                 let outc = run_call_with_kind(&sign, name, &pages, &bus, fi + attempt);
                 let b = bus.borrow();
                 emit_conversation(out, name, me, typ, &pages, &b.log, &outc);
@@ -718,6 +744,7 @@ pub fn record_chunk_replies(a: &Args, out: &mut TraceOut) -> Value {
                         exhausted: false,
                     }));
                     let sign = Sign::new(bus.clone(), a_, typ);
+                    let _ambient = ambient(&bus, a_, typ);
                     let pg: Vec<Page<'static>> = if name == "configure" { vec![] } else { pages.clone() };
                     let outc = run_call(&sign, name, &pg);
                     let b = bus.borrow();
@@ -783,6 +810,7 @@ pub fn record_c11_heavy(a: &Args, out: &mut TraceOut) -> Value {
         }));
         let typ = ALL_TYPES[(npages + failures as usize) % 11];
         let sign = Sign::new(bus.clone(), a_, typ);
+        let _ambient = ambient(&bus, a_, typ);
         let outc = run_call(&sign, "send_pages", &pages);
         let b = bus.borrow();
         let kept: Vec<(Message<'static>, Reply)> = b.log.iter().filter(|(m, r)| !(matches!(m, Message::SendData(_, _)) && matches!(r, Reply::None))).map(|(m, r)| (m.clone(), reply_from(&reply_json(r)))).collect();
